@@ -3,6 +3,15 @@ From Coq Require Import List Arith Bool Lia.
 From PV Require Import Opt.Syntax Generated.C11_Passes Opt.Model Opt.Spec Opt.Proofs Opt.Rewrites.
 Import ListNotations.
 
+Lemma stripped_sym : forall a b, stripped_eqb a b = stripped_eqb b a.
+Proof.
+  intros a b. destruct (stripped_eqb a b) eqn:E1; destruct (stripped_eqb b a) eqn:E2; try reflexivity.
+  - apply stripped_eqb_iff in E1. destruct E1 as [? [? ?]].
+    assert (stripped_eqb b a = true) by (apply stripped_eqb_iff; auto). congruence.
+  - apply stripped_eqb_iff in E2. destruct E2 as [? [? ?]].
+    assert (stripped_eqb a b = true) by (apply stripped_eqb_iff; auto). congruence.
+Qed.
+
 Section JR.
 Variable H : hier.
 Variable mx : nat.
@@ -94,10 +103,12 @@ Qed.
 Lemma same_members_norm : forall ts, same_members ts (norm_union ts).
 Proof.
   intros ts x. unfold norm_union. split.
-  - intros [t [Hin M]]. destruct t; try (exists (TUnion ts0) || idtac);
-      try (eexists; split; [apply dedup_In; apply in_flat_map; eexists; split; [exact Hin | left; reflexivity] | exact M]).
-    apply Member_union_iff in M. destruct M as [m [Hm M]]. exists m. split; [|assumption].
-    apply dedup_In. apply in_flat_map. exists (TUnion ts0). split; [assumption | exact Hm].
+  - intros [t [Hin M]]. destruct (is_union t) eqn:E.
+    + destruct t; try discriminate. apply Member_union_iff in M. destruct M as [m [Hm M]].
+      exists m. split; [|assumption].
+      apply dedup_In. apply in_flat_map. exists (TUnion ts0). split; [assumption | exact Hm].
+    + exists t. split; [|assumption]. apply dedup_In. apply in_flat_map. exists t. split; [assumption|].
+      destruct t; simpl; try (left; reflexivity); discriminate.
   - intros [t' [Hin M]]. rewrite dedup_In in Hin. apply in_flat_map in Hin. destruct Hin as [t [Hin Hf]].
     exists t. split; [assumption|]. destruct t; simpl in Hf; try (destruct Hf as [<-|[]]; assumption).
     apply Member_union_iff. exists t'. auto.
@@ -185,4 +196,947 @@ Proof.
   - apply jr_lookup_tup.
   - apply jr_lookup_call.
 Qed.
+
+(* ---------------------------------------------------------------- (3) SimplifyUnionsWithSuperclasses *)
+Lemma drop_list : forall (keep : ty -> bool) l pre,
+  (forall t, In t l -> keep t = false ->
+     exists k c k' s, t = TName k c /\ Sub H c s /\ keep (TName k' s) = true /\ In (TName k' s) (pre ++ l)) ->
+  jr (TUnion (pre ++ l)) (TUnion (pre ++ filter keep l)).
+Proof.
+  intros keep. induction l as [|x r IH]; intros pre J; simpl; [apply jr_refl|].
+  destruct (keep x) eqn:Kx.
+  - replace (pre ++ x :: r) with ((pre ++ [x]) ++ r) by (rewrite <- app_assoc; reflexivity).
+    replace (pre ++ x :: filter keep r) with ((pre ++ [x]) ++ filter keep r) by (rewrite <- app_assoc; reflexivity).
+    apply IH. intros t Ht Kt. destruct (J t (or_intror Ht) Kt) as [k [c [k' [s [E [Sb [Ks Hs]]]]]]].
+    exists k, c, k', s. repeat split; try assumption. rewrite <- app_assoc. exact Hs.
+  - destruct (J x (or_introl eq_refl) Kx) as [k [c [k' [s [E [Sb [Ks Hs]]]]]]]. subst x.
+    assert (Hs' : In (TName k' s) (pre ++ r)).
+    { apply in_app_or in Hs. apply in_or_app. destruct Hs as [Hs|[Hs|Hs]]; auto. congruence. }
+    eapply jr_trans; [eapply jr_subclass_absorbed; eassumption|].
+    apply IH. intros t Ht Kt. destruct (J t (or_intror Ht) Kt) as [k2 [c2 [k2' [s2 [E2 [Sb2 [Ks2 Hs2]]]]]]].
+    exists k2, c2, k2', s2. repeat split; try assumption.
+    apply in_app_or in Hs2. apply in_or_app. destruct Hs2 as [Hs2|[Hs2|Hs2]]; auto. congruence.
+Qed.
+
+Lemma suws_kept_super : forall k l, ranked H -> Forall (wf k) l ->
+  forall c, In (TName k c) l ->
+  exists u, In (TName k u) l /\ (suws_count H (filter_map name_of (dedup l)) u <=? 1) = true /\ Sub H c u.
+Proof.
+  intros k l R F.
+  set (members := filter_map name_of (dedup l)).
+  assert (M1 : forall c, In c members <-> In (TName k c) l).
+  { intros c. unfold members. rewrite filter_map_In. split.
+    - intros [t [Hin E]]. rewrite dedup_In in Hin. destruct t; try discriminate. simpl in E. inversion E; subst.
+      rewrite Forall_forall in F. specialize (F _ Hin). inversion F; subst. assumption.
+    - intros Hin. exists (TName k c). split; [apply dedup_In; assumption | reflexivity]. }
+  assert (M2 : NoDup members).
+  { unfold members. apply filter_map_NoDup; [|apply dedup_NoDup].
+    intros x x' y Hx Hx' E E'. rewrite dedup_In in Hx, Hx'. rewrite Forall_forall in F.
+    pose proof (F _ Hx) as W. pose proof (F _ Hx') as W'.
+    destruct x; try discriminate. destruct x'; try discriminate. simpl in E, E'.
+    inversion W; inversion W'; subst. congruence. }
+  assert (K : forall n c, c < n -> In c members ->
+              exists u, In u members /\ (suws_count H members u <=? 1) = true /\ Sub H c u).
+  { induction n as [|n IH]; intros c Lt Hc; [lia|].
+    destruct (suws_count H members c <=? 1) eqn:E.
+    - exists c. repeat split; try assumption. constructor.
+    - apply Nat.leb_gt in E. unfold suws_count in E.
+      destruct (NoDup_two (filter (fun m => memn c (expand_sub H m)) members) c) as [m [Hm Ne]];
+        [apply NoDup_filter; assumption | exact E |].
+      apply filter_In in Hm. destruct Hm as [Hm Ec]. apply memn_In in Ec. apply expand_sub_sound in Ec.
+      destruct (ranked_sub H R _ _ Ec) as [->|Lt']; [congruence|].
+      destruct (IH m ltac:(lia) Hm) as [u [Hu [Ku Su]]]. exists u. repeat split; try assumption.
+      eapply Sub_trans; eassumption. }
+  intros c Hc. destruct (K (S c) c ltac:(lia) (proj2 (M1 c) Hc)) as [u [Hu [Ku Su]]].
+  exists u. repeat split; try assumption. apply M1; assumption.
+Qed.
+
+Lemma suws_union_jr : forall k l, ranked H -> Forall (wf k) l -> jr (TUnion l) (suws_union H l).
+Proof.
+  intros k l R F. unfold suws_union.
+  eapply jr_trans; [|apply jr_join].
+  apply (drop_list _ l []). intros t Ht Kt.
+  destruct (name_of t) as [c|] eqn:E; [|discriminate]. destruct t; try discriminate. simpl in E. inversion E; subst c0.
+  rewrite Forall_forall in F. pose proof (F _ Ht) as W. assert (k0 = k) by (inversion W; reflexivity). subst k0.
+  rewrite <- Forall_forall in F.
+  destruct (suws_kept_super k l R F c Ht) as [u [Hu [Ku Su]]].
+  exists k, c, k, u. repeat split; try assumption.
+Qed.
+
+Lemma simplify_superclasses_jr : forall k t, ranked H -> wf k t -> jr t (simplify_superclasses H t).
+Proof.
+  intros k t R. unfold simplify_superclasses.
+  apply (visit_jr (suws_union H) TGen TName id_kind (wf k)); intros; try apply jr_refl.
+  - apply wf_union_inv; assumption.
+  - eapply wf_gen_inv; eassumption.
+  - eapply wf_tup_inv; eassumption.
+  - eapply wf_call_inv; eassumption.
+  - apply simplify_superclasses_wf; assumption.
+  - apply (suws_union_jr k); assumption.
+Qed.
+
+(* ---------------------------------------------------------------- the relation cannot narrow *)
+Lemma Member_sound : forall t v, admits H t v <-> exists x, Member x t /\ admits H x v.
+Proof.
+  intros t v. rewrite flat_sound. split; intros [x [Hx A]]; exists x; split; auto; apply flat_Member; assumption.
+Qed.
+
+Lemma pw_middle : forall a x y b, wider H x y -> pw H (a ++ x :: b) (a ++ y :: b).
+Proof.
+  induction a as [|z a IH]; intros x y b W; simpl; constructor; try apply wider_refl; try assumption.
+  - apply pw_refl.
+  - apply IH; assumption.
+Qed.
+
+Lemma zip_union_pw_l : forall a b, pw H a (zip_union a b).
+Proof.
+  induction a as [|x r IH]; intros b; simpl; [constructor|]. destruct b as [|y b']; constructor; [|apply IH].
+  intros v A. apply admits_union. exists x. split; [left; reflexivity | assumption].
+Qed.
+Lemma zip_union_pw_r : forall a b, pw H b (zip_union a b).
+Proof.
+  induction a as [|x r IH]; intros b; simpl; [constructor|]. destruct b as [|y b']; constructor; [|apply IH].
+  intros v A. apply admits_union. exists y. split; [right; left; reflexivity | assumption].
+Qed.
+Lemma zip_union_length : forall a b, length a = length b -> length (zip_union a b) = length a.
+Proof. induction a as [|x r IH]; intros b L; destruct b; simpl in *; try lia. rewrite IH; lia. Qed.
+
+Lemma merged_container_wider : forall t0 t1, same_container t0 t1 ->
+  wider H t0 (with_params t0 (zip_union (params_of t0) (params_of t1))) /\
+  wider H t1 (with_params t0 (zip_union (params_of t0) (params_of t1))).
+Proof.
+  intros t0 t1 S. destruct S; simpl.
+  - split; apply wider_gen; [apply zip_union_pw_l | apply zip_union_pw_r].
+  - split; apply wider_tup; try apply zip_union_pw_l; try apply zip_union_pw_r;
+      rewrite zip_union_length; congruence.
+  - split; apply wider_call; try apply zip_union_pw_l; try apply zip_union_pw_r;
+      rewrite zip_union_length; congruence.
+Qed.
+
+Lemma jr_widens_lemma : forall t t', jr t t' -> wider H t t'.
+Proof.
+  induction 1.
+  - apply wider_refl.
+  - eapply wider_trans; eassumption.
+  - intros v A. apply admits_union in A. destruct A as [t [Hin A]]. apply admits_union.
+    apply in_app_or in Hin. destruct Hin as [Hin|[<-|Hin]].
+    + exists t. split; [apply in_or_app; auto | assumption].
+    + exists y. split; [apply in_or_app; right; left; reflexivity | apply IHjr_ty; assumption].
+    + exists t. split; [apply in_or_app; right; right; assumption | assumption].
+  - apply wider_gen. apply pw_middle. assumption.
+  - apply wider_tup; [apply pw_middle; assumption | rewrite !app_length; reflexivity].
+  - apply wider_call; [apply pw_middle; assumption | rewrite !app_length; reflexivity].
+  - intros v A. apply admits_union in A. destruct A as [t [Hin A]]. apply Member_sound in A.
+    destruct A as [x [Mx Ax]]. destruct (proj1 (H0 x) (ex_intro _ t (conj Hin Mx))) as [t' [Hin' Mx']].
+    apply admits_union. exists t'. split; [assumption|]. apply Member_sound. exists x; auto.
+  - intros v A. apply admits_union in A. destruct A as [t [[<-|[]] A]]. assumption.
+  - intros v A. apply admits_union in A. destruct A as [t [[] _]].
+  - intros v _. exact Logic.I.
+  - intros v _. apply admits_union. exists TAny. split; [left; reflexivity | exact Logic.I].
+  - intros v A. apply admits_union. exists x. split; [left; reflexivity | assumption].
+  - intros v A. apply admits_tup in A. destruct A as [items [-> [S F]]].
+    apply admits_gen. split; [assumption|]. simpl. split; [|exact Logic.I].
+    apply Forall2_ex in F. eapply Forall_impl; [|exact F]. intros a [p [Hp Ap]].
+    apply admits_union. exists p; auto.
+  - apply (cc_conv_wider H true true (TCall k c ps)).
+  - destruct (merged_container_wider t0 t1 H0) as [W0 W1].
+    intros v A. apply admits_union in A. destruct A as [t [Hin A]]. apply admits_union.
+    apply in_app_or in Hin. destruct Hin as [Hin|[<-|Hin]].
+    + exists t. split; [apply in_or_app; auto | assumption].
+    + eexists. split; [apply in_or_app; right; left; reflexivity | apply W0; assumption].
+    + apply in_app_or in Hin. destruct Hin as [Hin|[<-|Hin]].
+      * exists t. split; [apply in_or_app; right; right; apply in_or_app; auto | assumption].
+      * eexists. split; [apply in_or_app; right; left; reflexivity | apply W1; assumption].
+      * exists t. split; [apply in_or_app; right; right; apply in_or_app; auto | assumption].
+  - intros v A. apply admits_union in A. destruct A as [t [Hin A]]. apply admits_union.
+    apply in_app_or in Hin. destruct Hin as [Hin|[<-|Hin]].
+    + exists t. split; [apply in_or_app; auto | assumption].
+    + exists (TName k' s). split; [assumption|]. simpl in *. eapply Sub_trans; eassumption.
+    + exists t. split; [apply in_or_app; auto | assumption].
+  - intros v _. exact Logic.I.
+  - intros v _. exact Logic.I.
+  - intros v A. apply admits_gen in A. simpl. tauto.
+  - intros v A. exact A.
+  - intros v A. exact A.
+  - intros v A. exact A.
+  - intros v A. exact A.
+Qed.
+
+(* ---------------------------------------------------------------- (2) CombineContainers *)
+Lemma zip_union_join : forall a b, Forall2 jr (zip_union a b) (zip_join a b).
+Proof.
+  induction a as [|x r IH]; intros b; simpl; [constructor|]. destruct b as [|y b']; constructor; [|apply IH].
+  apply jr_join.
+Qed.
+
+Lemma with_params_jr : forall t ps qs, Forall2 jr ps qs -> jr (with_params t ps) (with_params t qs).
+Proof.
+  intros t ps qs F. destruct t; simpl; try apply jr_refl;
+    [apply jr_gen_all | apply jr_tup_all | apply jr_call_all]; assumption.
+Qed.
+
+Lemma key_same_container : forall k t0 t1 key, wf k t0 -> wf k t1 ->
+  key_of t0 = Some key -> key_of t1 = Some key -> same_container t0 t1.
+Proof.
+  intros k t0 t1 key W0 W1 K0 K1.
+  destruct t0; simpl in K0; try discriminate; destruct t1; simpl in K1; try discriminate;
+    inversion K0; subst key; inversion K1; subst; try constructor; try congruence.
+  - exfalso. inversion W0; subst. inversion W1; subst. discriminate.
+  - exfalso. inversion W0; subst. inversion W1; subst. discriminate.
+Qed.
+
+Lemma key_with_params : forall t key ps, key_of t = Some key ->
+  (forall k c n, key = KN k c n -> length ps = n) -> key_of (with_params t ps) = Some key.
+Proof.
+  intros t key ps K L. destruct t; simpl in *; try discriminate; inversion K; subst; try reflexivity;
+    rewrite (L _ _ _ eq_refl); reflexivity.
+Qed.
+Lemma params_with_params : forall t key ps, key_of t = Some key -> params_of (with_params t ps) = ps.
+Proof. intros t key ps K. destruct t; simpl in *; try discriminate; reflexivity. Qed.
+Lemma with_params_twice : forall t ps qs, with_params (with_params t ps) qs = with_params t qs.
+Proof. intros t ps qs. destruct t; reflexivity. Qed.
+Lemma key_length : forall t k c n, key_of t = Some (KN k c n) -> length (params_of t) = n.
+Proof. intros t k c n K. destruct t; simpl in K; try discriminate; inversion K; reflexivity. Qed.
+
+Definition not_key (key : ckey) (t : ty) : bool := negb (has_key key t).
+
+(* all later containers with this key are folded into the first one *)
+Lemma merge_all : forall k key l t pre mid, wf k t -> Forall (wf k) l -> key_of t = Some key ->
+  jr (TUnion (pre ++ t :: mid ++ l))
+     (TUnion (pre ++ with_params t (fold_left (fun acc x => zip_join acc (params_of x))
+                                              (filter (has_key key) l) (params_of t))
+                  :: mid ++ filter (not_key key) l)).
+Proof.
+  intros k key. induction l as [|x r IH]; intros t pre mid Wt Fl Kt; simpl.
+  - destruct t; simpl in Kt; try discriminate; apply jr_refl.
+  - inversion Fl as [|? ? Wx Fr]; subst. unfold not_key at 1. destruct (has_key key x) eqn:Hx; simpl.
+    + apply has_key_iff in Hx.
+      pose proof (key_same_container k t x key Wt Wx Kt Hx) as SC.
+      eapply jr_trans; [apply (jr_merge_containers H mx pre t mid x r SC)|].
+      set (t2 := with_params t (zip_join (params_of t) (params_of x))).
+      assert (J : jr (with_params t (zip_union (params_of t) (params_of x))) t2)
+        by (apply with_params_jr; apply zip_union_join).
+      eapply jr_trans; [apply jr_in_union; exact J|].
+      assert (K2 : key_of t2 = Some key).
+      { apply key_with_params; [assumption|]. intros k' c n ->. rewrite zip_join_length.
+        - eapply key_length; eassumption.
+        - rewrite (key_length _ _ _ _ Kt), (key_length _ _ _ _ Hx). reflexivity. }
+      assert (W2 : wf k t2).
+      { apply with_params_wf; [assumption|]. apply zip_join_wf; apply params_of_wf; assumption. }
+      specialize (IH t2 pre mid W2 Fr K2).
+      unfold t2 in IH at 2 3. rewrite with_params_twice, (params_with_params _ _ _ Kt) in IH. exact IH.
+    + replace (mid ++ x :: r) with ((mid ++ [x]) ++ r) by (rewrite <- app_assoc; reflexivity).
+      replace (mid ++ x :: filter (not_key key) r) with ((mid ++ [x]) ++ filter (not_key key) r)
+        by (rewrite <- app_assoc; reflexivity).
+      apply IH; assumption.
+Qed.
+
+Lemma join_head : forall r a rest, jr (TUnion (r :: a :: rest)) (TUnion (join [r; a] :: rest)).
+Proof.
+  intros r a rest.
+  eapply jr_trans; [apply (jr_same_members H mx _ (TUnion [r; a] :: rest))|].
+  - intros x. split.
+    + intros [t [[<-|[<-|Hin]] M]].
+      * exists (TUnion [r; a]). split; [left; reflexivity | apply Member_union_iff; exists r; simpl; auto].
+      * exists (TUnion [r; a]). split; [left; reflexivity | apply Member_union_iff; exists a; simpl; auto].
+      * exists t. split; [right; assumption | assumption].
+    + intros [t [[<-|Hin] M]].
+      * apply Member_union_iff in M. destruct M as [t [[<-|[<-|[]]] M]]; eexists; split; try exact M; simpl; auto.
+      * exists t. split; [right; right; assumption | assumption].
+  - apply (jr_in_union H mx [] _ _ rest). apply jr_join.
+Qed.
+
+Definition eff (done : list ckey) (l : list ty) : list ty :=
+  filter (fun t => match key_of t with Some k => negb (mem_by ckey_eqb k done) | None => true end) l.
+
+Lemma filter_filter_key : forall key done r,
+  filter (not_key key) (eff done r) = eff (key :: done) r.
+Proof.
+  intros key done r. unfold eff. induction r as [|x r IH]; simpl; [reflexivity|].
+  unfold not_key, has_key, mem_by at 2. simpl.
+  destruct (key_of x) as [kx|] eqn:Kx; simpl.
+  - destruct (mem_by ckey_eqb kx done) eqn:M; simpl.
+    + rewrite orb_true_r. simpl. exact IH.
+    + unfold not_key, has_key. rewrite Kx. rewrite orb_false_r.
+      destruct (ckey_eqb kx key); simpl; [exact IH | f_equal; exact IH].
+  - unfold not_key, has_key. rewrite Kx. simpl. f_equal. exact IH.
+Qed.
+
+Lemma filter_key_not_key : forall key key' l, key <> key' ->
+  filter (has_key key') (filter (not_key key) l) = filter (has_key key') l.
+Proof.
+  intros key key' l N. induction l as [|x r IH]; simpl; [reflexivity|].
+  unfold not_key at 1. destruct (has_key key x) eqn:Hk; simpl.
+  - destruct (has_key key' x) eqn:Hk'; [|exact IH].
+    apply has_key_iff in Hk. apply has_key_iff in Hk'. congruence.
+  - rewrite IH. reflexivity.
+Qed.
+
+Section EmitJR.
+  Variable k : kind.
+  Variable rec : ty -> option ty.
+  Hypothesis rec_ok : forall t t', wf k t -> rec t = Some t' -> wider H t t' /\ wf k t'.
+  Hypothesis rec_jr : forall t t', wf k t -> rec t = Some t' -> jr t t'.
+  Variable whole : list ty.
+  Hypothesis whole_wf : Forall (wf k) whole.
+
+  Lemma rec_params_jr : forall ps ps', Forall (wf k) ps -> map_opt rec ps = Some ps' -> Forall2 jr ps ps'.
+  Proof.
+    intros ps ps' F E. apply map_opt_Forall2 in E. induction E; constructor.
+    - inversion F; subst. apply rec_jr; assumption.
+    - inversion F; subst. apply IHE; assumption.
+  Qed.
+
+  Lemma eff_incl : forall done l, (forall t, In t l -> In t whole) -> Forall (wf k) (eff done l).
+  Proof.
+    intros done l Sub. apply Forall_forall. intros x Hx. unfold eff in Hx. apply filter_In in Hx.
+    rewrite Forall_forall in whole_wf. apply whole_wf. apply Sub. tauto.
+  Qed.
+
+  Lemma cc_emit_jr : forall l done result t',
+    (forall t, In t l -> In t whole) ->
+    wf k result ->
+    (forall key, mem_by ckey_eqb key done = false ->
+                 filter (has_key key) (eff done l) = filter (has_key key) whole) ->
+    cc_emit rec whole done result l = Some t' ->
+    jr (TUnion (result :: eff done l)) t'.
+  Proof.
+    induction l as [|t r IH]; intros done result t' Sub Wr Hyp E; simpl in E.
+    - inversion E; subst. simpl. apply jr_one_member.
+    - assert (Wt : wf k t).
+      { rewrite Forall_forall in whole_wf. apply whole_wf. apply Sub. left; reflexivity. }
+      assert (Sub' : forall x, In x r -> In x whole) by (intros; apply Sub; right; assumption).
+      destruct (key_of t) as [key|] eqn:Kt.
+      + destruct (mem_by ckey_eqb key done) eqn:Md.
+        * assert (Ee : eff done (t :: r) = eff done r) by (unfold eff; simpl; rewrite Kt, Md; reflexivity).
+          rewrite Ee. apply IH; try assumption. intros key' M'. rewrite <- (Hyp key' M'), Ee. reflexivity.
+        * destruct (map_opt rec (merged key whole)) as [ps'|] eqn:Em; [|discriminate].
+          assert (Ee : eff done (t :: r) = t :: eff done r) by (unfold eff; simpl; rewrite Kt, Md; reflexivity).
+          rewrite Ee.
+          pose proof (Hyp key Md) as Hk. rewrite Ee in Hk. simpl in Hk.
+          rewrite (proj2 (has_key_iff key t) Kt) in Hk.
+          assert (Mg : merged key whole =
+                       fold_left (fun acc x => zip_join acc (params_of x)) (filter (has_key key) (eff done r)) (params_of t)).
+          { unfold merged. rewrite <- Hk. reflexivity. }
+          pose proof (merge_all k key (eff done r) t [result] [] Wt (eff_incl done r Sub') Kt) as MA.
+          simpl in MA. rewrite <- Mg, filter_filter_key in MA.
+          eapply jr_trans; [exact MA|].
+          pose proof (rec_params_jr _ _ (merged_wf k key whole whole_wf) Em) as Fp.
+          destruct (rec_params H k rec rec_ok _ _ (merged_wf k key whole whole_wf) Em) as [_ [_ Fw]].
+          eapply jr_trans; [apply (jr_in_union H mx [result]); apply with_params_jr; exact Fp|].
+          eapply jr_trans; [apply join_head|].
+          apply IH; try assumption.
+          -- apply join_wf. constructor; [assumption|]. constructor; [|constructor]. apply with_params_wf; assumption.
+          -- intros key' M'. unfold mem_by in M'. simpl in M'. apply orb_false_iff in M'. destruct M' as [Ne M'].
+             assert (Nk : key <> key') by (intros ->; rewrite (proj2 (ckey_eqb_eq key' key') eq_refl) in Ne; discriminate).
+             rewrite <- filter_filter_key, (filter_key_not_key key key' _ Nk).
+             rewrite <- (Hyp key' M'), Ee. simpl.
+             destruct (has_key key' t) eqn:Hk'; [|reflexivity].
+             apply has_key_iff in Hk'. congruence.
+      + assert (Ee : eff done (t :: r) = t :: eff done r) by (unfold eff; simpl; rewrite Kt; reflexivity).
+        rewrite Ee. eapply jr_trans; [apply join_head|].
+        apply IH; try assumption.
+        * apply join_wf. repeat constructor; assumption.
+        * intros key' M'. rewrite <- (Hyp key' M'), Ee. simpl. unfold has_key at 2. rewrite Kt. reflexivity.
+  Qed.
+End EmitJR.
+
+Lemma eff_nil : forall l, eff [] l = l.
+Proof.
+  intros l. unfold eff. induction l as [|x r IH]; simpl; [reflexivity|].
+  destruct (key_of x); simpl; f_equal; exact IH.
+Qed.
+
+Lemma cc_conv_jr : forall mt mc t, jr t (cc_conv mt mc t).
+Proof.
+  intros mt mc t. destruct t; simpl; try apply jr_refl.
+  - destruct mt; [|apply jr_refl]. eapply jr_trans; [apply jr_tuple_homogeneous|].
+    apply (jr_in_gen H mx k c [] _ _ []). apply jr_join.
+  - destruct mc; [|apply jr_refl]. apply jr_callable_degenerate.
+Qed.
+
+Lemma cc_union_jr : forall k rec,
+  (forall t t', wf k t -> rec t = Some t' -> wider H t t' /\ wf k t') ->
+  (forall t t', wf k t -> rec t = Some t' -> jr t t') ->
+  forall l0 t', Forall (wf k) l0 -> cc_union rec l0 = Some t' -> jr (TUnion l0) t'.
+Proof.
+  intros k rec Hok Hjr l0 t' F0 E. unfold cc_union in E.
+  destruct (negb (existsb is_generic l0)); [inversion E; subst; apply jr_refl|].
+  set (u := join l0) in *.
+  set (l := match u with TUnion l' => l' | _ => [u] end) in *.
+  assert (Wu : wf k u) by (apply join_wf; assumption).
+  assert (Fl : Forall (wf k) l).
+  { unfold l. destruct u; try (constructor; [assumption | constructor]). apply wf_union_inv; assumption. }
+  assert (J1 : jr (TUnion l0) (TUnion l)).
+  { eapply jr_trans; [apply jr_join|]. fold u. unfold l. destruct u; try apply jr_one_member_wrap. apply jr_refl. }
+  set (mt := should_merge true None l) in *. set (mc := should_merge false None l) in *.
+  set (l2 := if mt || mc then map (cc_conv mt mc) l else l) in *.
+  assert (Fl2 : Forall (wf k) l2).
+  { unfold l2. destruct (mt || mc); [|assumption]. apply Forall_forall. intros x Hx.
+    apply in_map_iff in Hx. destruct Hx as [t [<- Hin]]. apply cc_conv_wf. rewrite Forall_forall in Fl; auto. }
+  assert (J2 : jr (TUnion l) (TUnion l2)).
+  { unfold l2. destruct (mt || mc); [|apply jr_refl]. apply jr_union_all. apply Forall2_map_fn.
+    intros; apply cc_conv_jr. }
+  destruct (negb (has_redundant l2)).
+  { inversion E; subst. eapply jr_trans; eassumption. }
+  eapply jr_trans; [exact J1|]. eapply jr_trans; [exact J2|].
+  eapply jr_trans; [apply (jr_same_members H mx l2 (TNothing :: l2))|].
+  - intros x. split.
+    + intros [t [Hin M]]. exists t. split; [right; assumption | assumption].
+    + intros [t [[<-|Hin] M]]; [inversion M; subst; discriminate | exists t; auto].
+  - rewrite <- (eff_nil l2) at 1.
+    apply (cc_emit_jr k rec Hok Hjr l2 Fl2 l2 [] TNothing t'); try assumption.
+    + auto.
+    + constructor.
+    + intros key _. rewrite eff_nil. reflexivity.
+Qed.
+
+Lemma cc_jr : forall k n t t', wf k t -> cc n t = Some t' -> jr t t'.
+Proof.
+  intros k n; induction n as [|f IH]; intros t t' W E; simpl in E; [discriminate|].
+  assert (Hok : forall t t', wf k t -> cc f t = Some t' -> wider H t t' /\ wf k t')
+    by (intros; eapply cc_sound; eassumption).
+  destruct t; try (inversion E; subst; apply jr_refl).
+  - destruct (map_opt (cc f) ts) as [ts'|] eqn:Em; [|discriminate].
+    destruct (rec_params H k (cc f) Hok _ _ (wf_union_inv _ _ W) Em) as [_ [_ F']].
+    eapply jr_trans; [apply jr_union_all; apply (rec_params_jr k (cc f) IH _ _ (wf_union_inv _ _ W) Em)|].
+    eapply jr_trans; [apply jr_norm_union|].
+    apply (cc_union_jr k (cc f) Hok IH); [|assumption].
+    apply norm_union_elems; [apply wf_union_inv | assumption].
+  - destruct (map_opt (cc f) ps) as [ps'|] eqn:Em; [|discriminate]. simpl in E. inversion E; subst.
+    apply jr_gen_all. apply (rec_params_jr k (cc f) IH _ _ (wf_gen_inv _ _ _ _ W) Em).
+  - destruct (map_opt (cc f) ps) as [ps'|] eqn:Em; [|discriminate]. simpl in E. inversion E; subst.
+    apply jr_tup_all. apply (rec_params_jr k (cc f) IH _ _ (wf_tup_inv _ _ _ _ W) Em).
+  - destruct (map_opt (cc f) ps) as [ps'|] eqn:Em; [|discriminate]. simpl in E. inversion E; subst.
+    apply jr_call_all. apply (rec_params_jr k (cc f) IH _ _ (wf_call_inv _ _ _ _ W) Em).
+Qed.
+
+Lemma combine_containers_jr : forall k t, wf k t -> jr t (combine_containers t).
+Proof.
+  intros k t W. unfold combine_containers, cc_top. destruct (cc (2 * size t + 2) t) eqn:E; [|apply jr_refl].
+  apply (cc_jr k _ _ _ W E).
+Qed.
+
+(* ---------------------------------------------------------------- `==`-duplicates *)
+Lemma same_members_sets : forall a b, (forall x, In x a <-> In x b) -> same_members a b.
+Proof. intros a b E x. split; intros [t [Hin M]]; exists t; split; auto; apply E; assumption. Qed.
+
+Lemma tys_py_eqb_jr : forall l, Forall (fun a => forall b, py_eqb a b = true -> jr a b) l ->
+  forall l', tys_py_eqb l l' = true -> Forall2 jr l l'.
+Proof.
+  intros l F. induction F as [|x r Hx _ IH]; destruct l' as [|y r']; simpl; intros E; try discriminate; constructor.
+  - apply andb_true_iff in E. apply Hx. tauto.
+  - apply andb_true_iff in E. apply IH. tauto.
+Qed.
+
+Lemma py_eqb_jr : forall a b, py_eqb a b = true -> jr a b.
+Proof.
+  intros a; induction a using ty_ind'; intros b E;
+    try (assert (E' : ty_eqb _ b = true) by (destruct b; exact E);
+         apply ty_eqb_eq in E'; subst b; apply jr_refl);
+    destruct b; simpl in E; try discriminate.
+  - apply andb_true_iff in E. destruct E as [E1 E2]. rewrite forallb_forall in E1, E2.
+    apply jr_same_members. apply same_members_sets. intros x. split; intros Hx.
+    + apply memb_In. apply E1. assumption.
+    + apply memb_In. apply E2. assumption.
+  - change (kind_eqb k k0 && Nat.eqb c c0 && tys_py_eqb ps ps0 = true) in E.
+    rewrite !andb_true_iff, kind_eqb_eq, Nat.eqb_eq in E. destruct E as [[-> ->] E].
+    apply jr_gen_all. apply (tys_py_eqb_jr ps H0 _ E).
+  - change (kind_eqb k k0 && Nat.eqb c c0 && tys_py_eqb ps ps0 = true) in E.
+    rewrite !andb_true_iff, kind_eqb_eq, Nat.eqb_eq in E. destruct E as [[-> ->] E].
+    apply jr_tup_all. apply (tys_py_eqb_jr ps H0 _ E).
+  - change (kind_eqb k k0 && Nat.eqb c c0 && tys_py_eqb ps ps0 = true) in E.
+    rewrite !andb_true_iff, kind_eqb_eq, Nat.eqb_eq in E. destruct E as [[-> ->] E].
+    apply jr_call_all. apply (tys_py_eqb_jr ps H0 _ E).
+Qed.
+
+(* representative of a type among the `==`-deduplicated list *)
+Definition py_rep (D : list ty) (r : ty) : ty :=
+  if memb r D then r else match find (py_eqb r) D with Some y => y | None => r end.
+
+Lemma py_rep_spec : forall l r, In r l -> In (py_rep (dedup_py l) r) (dedup_py l) /\ jr r (py_rep (dedup_py l) r).
+Proof.
+  intros l r Hin. unfold py_rep, dedup_py. destruct (memb r (dedup_by py_eqb l)) eqn:M.
+  - split; [apply memb_In; assumption | apply jr_refl].
+  - destruct (dedup_by_cover py_eqb py_eqb_refl l r Hin) as [y [Hy Ey]].
+    destruct (find (py_eqb r) (dedup_by py_eqb l)) as [z|] eqn:Fz.
+    + apply find_some in Fz. destruct Fz as [Hz Ez].
+      split; [exact Hz | apply py_eqb_jr; exact Ez].
+    + exfalso. pose proof (find_none _ _ Fz y Hy) as N. congruence.
+Qed.
+
+Lemma dedup_py_jr : forall l, jr (TUnion l) (TUnion (dedup_py l)).
+Proof.
+  intros l. eapply jr_trans; [apply jr_union_all; apply (Forall2_map_fn (py_rep (dedup_py l)))|].
+  - intros x Hx. apply (py_rep_spec l x Hx).
+  - apply jr_same_members. apply same_members_sets. intros x. split.
+    + intros Hx. apply in_map_iff in Hx. destruct Hx as [r [<- Hr]]. apply (py_rep_spec l r Hr).
+    + intros Hx. apply in_map_iff. exists x. split.
+      * unfold py_rep. rewrite (proj2 (memb_In x (dedup_py l)) Hx). reflexivity.
+      * eapply dedup_by_subset; eassumption.
+Qed.
+
+(* ---------------------------------------------------------------- parameters, signatures *)
+Variable cls : option cid.
+Notation jp := (jr_param H mx cls).
+Notation jsig := (jr_sig H mx cls).
+Notation jsigs := (jr_sigs H mx cls).
+
+Lemma jr_omut_refl : forall m, jr_omut H mx m m.
+Proof. intros [m|]; simpl; [apply jr_refl | exact Logic.I]. Qed.
+Lemma jp_refl : forall p, jp p p.
+Proof. intros [n t kd op m]. apply jp_types; [apply jr_refl | apply jr_omut_refl]. Qed.
+Lemma jr_oparam_refl : forall p, jr_oparam H mx cls p p.
+Proof. intros [p|]; simpl; [apply jp_refl | exact Logic.I]. Qed.
+Lemma jr_exc_refl : forall es, jr_exc H mx es es.
+Proof. intros es. split; intros e He; exists e; split; auto; apply jr_refl. Qed.
+Lemma jsig_refl : forall s, jsig s s.
+Proof.
+  intros s. unfold jr_sig. split; [apply Forall2_refl; apply jp_refl|].
+  split; [apply jr_oparam_refl|]. split; [apply jr_oparam_refl|]. split; [apply jr_refl | apply jr_exc_refl].
+Qed.
+Lemma jsigs_refl : forall l, jsigs l l.
+Proof. intros l. apply js_each. apply Forall2_refl. apply jsig_refl. Qed.
+
+Lemma map_param_jr : forall (I : ty -> Prop) f p, (forall t, I t -> jr t (f t)) -> wf_param I p -> jp p (map_param f p).
+Proof.
+  intros I f [n t kd op m] Hf [W M]. unfold map_param; simpl in *. apply jp_types; [auto|].
+  destruct m; simpl; auto.
+Qed.
+
+Lemma map_sig3_jr : forall (I : ty -> Prop) fp fr fe s,
+  (forall t, I t -> jr t (fp t)) -> (forall t, I t -> jr t (fr t)) -> (forall t, I t -> jr t (fe t)) ->
+  wf_sig I s -> jsig s (map_sig3 fp fr fe s).
+Proof.
+  intros I fp fr fe s Hp Hr He [Pp [S [SS [R E]]]]. unfold jr_sig, map_sig3; simpl. repeat split.
+  - apply Forall2_map_r. intros p Hin. eapply map_param_jr; [eassumption|]. rewrite Forall_forall in Pp; auto.
+  - destruct (s_star s); simpl; [eapply map_param_jr; eassumption | exact Logic.I].
+  - destruct (s_starstar s); simpl; [eapply map_param_jr; eassumption | exact Logic.I].
+  - auto.
+  - intros e Hin. exists (fe e). split; [apply in_map; assumption|]. apply He. rewrite Forall_forall in E; auto.
+  - intros e' Hin. apply in_map_iff in Hin. destruct Hin as [e [<- Hin]]. exists e. split; [assumption|].
+    apply He. rewrite Forall_forall in E; auto.
+Qed.
+
+(* (4) RemoveDuplicates *)
+Lemma remove_dups_jr : forall l pre seen, (forall x, In x seen <-> In x pre) ->
+  jsigs (pre ++ l) (pre ++ dedup_from sig_eqb seen l).
+Proof.
+  induction l as [|x r IH]; intros pre seen E; simpl; [apply jsigs_refl|].
+  destruct (mem_by sig_eqb x seen) eqn:M.
+  - apply (mem_by_In sig_eqb sig_eqb_eq) in M. apply E in M. apply in_split in M. destruct M as [a [b ->]].
+    eapply js_trans; [|apply IH; exact E].
+    rewrite <- !app_assoc. simpl. apply js_identical_removed.
+  - replace (pre ++ x :: r) with ((pre ++ [x]) ++ r) by (rewrite <- app_assoc; reflexivity).
+    replace (pre ++ x :: dedup_from sig_eqb (x :: seen) r) with ((pre ++ [x]) ++ dedup_from sig_eqb (x :: seen) r)
+      by (rewrite <- app_assoc; reflexivity).
+    apply IH. intros y. simpl. rewrite in_app_iff, E. simpl. tauto.
+Qed.
+Lemma remove_duplicates_jr : forall f, jr_func H mx cls f (remove_duplicates_f f).
+Proof.
+  intros f. unfold jr_func, remove_duplicates_f; simpl. repeat split.
+  apply (remove_dups_jr (f_sigs f) [] []). intros; tauto.
+Qed.
+
+(* (4) CombineReturnsAndExceptions *)
+Definition merge2 (acc x : sig) : sig :=
+  mkSig (s_params acc) (s_star acc) (s_starstar acc) (TUnion [s_ret acc; s_ret x]) (s_exc acc ++ s_exc x).
+Definition not_same (s x : sig) : bool := negb (stripped_eqb s x).
+
+Lemma sig_merge_all : forall s l acc pre mid, same_parameters s acc ->
+  jsigs (pre ++ acc :: mid ++ l)
+        (pre ++ fold_left merge2 (filter (stripped_eqb s) l) acc :: mid ++ filter (not_same s) l).
+Proof.
+  intros s. induction l as [|x r IH]; intros acc pre mid SP; simpl; [apply jsigs_refl|].
+  unfold not_same at 1. destruct (stripped_eqb s x) eqn:E; simpl.
+  - apply stripped_eqb_iff in E. destruct SP as [P1 [P2 P3]]. destruct E as [E1 [E2 E3]].
+    eapply js_trans; [apply (js_merged H mx cls pre acc mid x r); unfold same_parameters; repeat split; congruence|].
+    apply (IH (merge2 acc x)). unfold same_parameters, merge2; simpl. auto.
+  - replace (mid ++ x :: r) with ((mid ++ [x]) ++ r) by (rewrite <- app_assoc; reflexivity).
+    replace (mid ++ x :: filter (not_same s) r) with ((mid ++ [x]) ++ filter (not_same s) r)
+      by (rewrite <- app_assoc; reflexivity).
+    apply IH; assumption.
+Qed.
+
+Lemma fold_merge2_shape : forall l acc,
+  s_params (fold_left merge2 l acc) = s_params acc /\ s_star (fold_left merge2 l acc) = s_star acc /\
+  s_starstar (fold_left merge2 l acc) = s_starstar acc /\
+  s_exc (fold_left merge2 l acc) = s_exc acc ++ flat_map s_exc l /\
+  same_members [s_ret (fold_left merge2 l acc)] (s_ret acc :: map s_ret l).
+Proof.
+  induction l as [|x r IH]; intros acc; simpl.
+  - rewrite app_nil_r. split; [reflexivity|]. split; [reflexivity|]. split; [reflexivity|]. split; [reflexivity|].
+    intros y; tauto.
+  - destruct (IH (merge2 acc x)) as [A [B [C [D M]]]]. simpl in *. rewrite A, B, C, D, <- app_assoc.
+    split; [reflexivity|]. split; [reflexivity|]. split; [reflexivity|]. split; [reflexivity|].
+    intros y. rewrite (M y). split.
+    + intros [t [[<-|Hin] Mt]].
+      * apply Member_union_iff in Mt. destruct Mt as [t [[<-|[<-|[]]] Mt]]; eexists; split; try exact Mt; simpl; auto.
+      * exists t. split; [right; right; assumption | assumption].
+    + intros [t [[<-|[<-|Hin]] Mt]].
+      * exists (TUnion [s_ret acc; s_ret x]). split; [left; reflexivity|]. apply Member_union_iff.
+        exists (s_ret acc). simpl; auto.
+      * exists (TUnion [s_ret acc; s_ret x]). split; [left; reflexivity|]. apply Member_union_iff.
+        exists (s_ret x). simpl; auto.
+      * exists t. split; [right; assumption | assumption].
+Qed.
+
+Lemma merged_group_jr : forall s ms whole,
+  filter (stripped_eqb s) whole = s :: ms ->
+  jsig (fold_left merge2 ms s) (combine_group whole s).
+Proof.
+  intros s ms whole Fw. destruct (fold_merge2_shape ms s) as [A [B [C [D M]]]].
+  unfold jr_sig, combine_group. rewrite Fw. simpl. rewrite A, B, C, D.
+  split; [apply Forall2_refl; apply jp_refl|]. split; [apply jr_oparam_refl|]. split; [apply jr_oparam_refl|]. split.
+  - eapply jr_trans; [apply jr_one_member_wrap|].
+    eapply jr_trans; [apply jr_same_members; exact M|].
+    eapply jr_trans; [apply dedup_py_jr|]. apply jr_join.
+  - split.
+    + intros e He. destruct (dedup_by_cover py_eqb py_eqb_refl _ e He) as [y [Hy Ey]].
+      exists y. split; [exact Hy | apply py_eqb_jr; exact Ey].
+    + intros e' He. exists e'. split; [eapply dedup_by_subset; exact He | apply jr_refl].
+Qed.
+
+Definition effS (seen : list sig) (l : list sig) : list sig :=
+  filter (fun s => negb (mem_by stripped_eqb s seen)) l.
+
+Lemma stripped_trans_false : forall s s0 x, stripped_eqb s x = true -> stripped_eqb s0 s = false -> stripped_eqb s0 x = false.
+Proof.
+  intros s s0 x E N. destruct (stripped_eqb s0 x) eqn:E2; [|reflexivity].
+  apply stripped_eqb_iff in E. apply stripped_eqb_iff in E2. destruct E as [? [? ?]]. destruct E2 as [? [? ?]].
+  assert (stripped_eqb s0 s = true) by (apply stripped_eqb_iff; repeat split; congruence). congruence.
+Qed.
+
+Lemma combine_jr : forall whole l seen pre,
+  (forall s0, mem_by stripped_eqb s0 seen = false ->
+     filter (stripped_eqb s0) (effS seen l) = filter (stripped_eqb s0) whole) ->
+  jsigs (pre ++ effS seen l) (pre ++ map (combine_group whole) (dedup_from stripped_eqb seen l)).
+Proof.
+  intros whole. induction l as [|s r IH]; intros seen pre Hyp; [simpl; apply jsigs_refl|].
+  simpl dedup_from. destruct (mem_by stripped_eqb s seen) eqn:M.
+  - assert (Ee : effS seen (s :: r) = effS seen r) by (unfold effS; simpl; rewrite M; reflexivity).
+    rewrite Ee. apply IH. intros s0 M0. rewrite <- (Hyp s0 M0), Ee. reflexivity.
+  - assert (Ee : effS seen (s :: r) = s :: effS seen r) by (unfold effS; simpl; rewrite M; reflexivity).
+    rewrite Ee. pose proof (Hyp s M) as Hs. rewrite Ee in Hs. simpl in Hs. rewrite stripped_eqb_refl in Hs.
+    eapply js_trans; [apply (sig_merge_all s (effS seen r) s pre []); unfold same_parameters; auto|].
+    simpl.
+    assert (Fe : filter (not_same s) (effS seen r) = effS (s :: seen) r).
+    { unfold effS, mem_by. clear. induction r as [|x r IHr]; simpl; [reflexivity|].
+      destruct (existsb (stripped_eqb x) seen) eqn:Mx; simpl.
+      - rewrite orb_true_r. simpl. exact IHr.
+      - rewrite orb_false_r. unfold not_same at 1. rewrite (stripped_sym s x).
+        destruct (stripped_eqb x s); simpl; [exact IHr | f_equal; exact IHr]. }
+    rewrite Fe.
+    eapply js_trans.
+    + apply (js_each H mx cls (pre ++ _ :: effS (s :: seen) r)
+                             (pre ++ combine_group whole s :: effS (s :: seen) r)).
+      apply Forall2_app; [apply Forall2_refl; apply jsig_refl|]. constructor; [|apply Forall2_refl; apply jsig_refl].
+      apply merged_group_jr. symmetry. exact Hs.
+    + replace (pre ++ combine_group whole s :: effS (s :: seen) r)
+        with ((pre ++ [combine_group whole s]) ++ effS (s :: seen) r) by (rewrite <- app_assoc; reflexivity).
+      replace (pre ++ combine_group whole s :: map (combine_group whole) (dedup_from stripped_eqb (s :: seen) r))
+        with ((pre ++ [combine_group whole s]) ++ map (combine_group whole) (dedup_from stripped_eqb (s :: seen) r))
+        by (rewrite <- app_assoc; reflexivity).
+      apply IH. intros s0 M0. unfold mem_by in M0. simpl in M0. apply orb_false_iff in M0. destruct M0 as [N0 M0].
+      rewrite <- Fe. rewrite <- (Hyp s0 M0), Ee. simpl. rewrite N0.
+      clear - N0. induction (effS seen r) as [|x l IHl]; simpl; [reflexivity|].
+      unfold not_same at 1. destruct (stripped_eqb s x) eqn:Ex; simpl.
+      * rewrite (stripped_trans_false s s0 x Ex N0). exact IHl.
+      * rewrite IHl. reflexivity.
+Qed.
 End JR.
+
+(* ================================================================== functions, units, the pipeline *)
+Lemma has_flag_enabled_l : forall o f fl, has_flag f fl = true -> forallb (enabled o) fl = true -> enabled o f = true.
+Proof.
+  intros o f fl Hf En. unfold has_flag in Hf. apply existsb_exists in Hf. destruct Hf as [g [Hg E]].
+  rewrite forallb_forall in En. specialize (En g Hg). destruct f, g; try discriminate; assumption.
+Qed.
+
+Lemma effS_nil : forall l, effS [] l = l.
+Proof. intros l. unfold effS. induction l as [|x r IH]; simpl; [reflexivity | f_equal; exact IH]. Qed.
+
+Lemma combine_returns_jr : forall H mx cls f, jr_func H mx cls f (combine_returns_f f).
+Proof.
+  intros H mx cls f. unfold jr_func, combine_returns_f; simpl. repeat split.
+  pose proof (combine_jr H mx cls (f_sigs f) (f_sigs f) [] []) as C.
+  assert (Hy : forall s0, mem_by stripped_eqb s0 [] = false ->
+               filter (stripped_eqb s0) (effS [] (f_sigs f)) = filter (stripped_eqb s0) (f_sigs f))
+    by (intros s0 _; rewrite effS_nil; reflexivity).
+  specialize (C Hy). simpl in C. rewrite effS_nil in C. exact C.
+Qed.
+
+Lemma map_func_jr : forall H mx cls (I : ty -> Prop) g f,
+  (forall s, wf_sig I s -> jr_sig H mx cls s (g s)) -> wf_func I f -> jr_func H mx cls f (map_func g f).
+Proof.
+  intros H mx cls I g f Hg W. unfold jr_func, map_func; simpl. repeat split. apply js_each.
+  apply Forall2_map_r. intros s Hs. apply Hg. unfold wf_func in W. rewrite Forall_forall in W; auto.
+Qed.
+
+Lemma normalize_self_sig_jr : forall H mx c s, jr_sig H mx (Some c) s (normalize_self_sig c s).
+Proof.
+  intros H mx c s. unfold normalize_self_sig. destruct (s_params s) as [|p rest] eqn:Ep; [apply jsig_refl|].
+  destruct (Nat.eqb (p_name p) 0 && is_generic (p_ty p) && Nat.eqb (base_cid (p_ty p)) c) eqn:E; [|apply jsig_refl].
+  rewrite !andb_true_iff, !Nat.eqb_eq in E. destruct E as [[E1 E2] E3].
+  unfold jr_sig; simpl. rewrite Ep.
+  split; [|split; [apply jr_oparam_refl | split; [apply jr_oparam_refl | split; [apply jr_refl | apply jr_exc_refl]]]].
+  constructor; [|apply Forall2_refl; apply jp_refl].
+  destruct p as [n t kd op m]; simpl in *. subst n.
+  destruct t; try discriminate;
+    [apply (jp_self_unparameterised H mx (Some c) c (TGen k c0 ps))
+    |apply (jp_self_unparameterised H mx (Some c) c (TTup k c0 ps))
+    |apply (jp_self_unparameterised H mx (Some c) c (TCall k c0 ps))]; auto.
+Qed.
+
+Lemma unit_map_jr : forall (I : ty -> Prop) Hd mx gc gm gcc gf u,
+  (forall c, wf_const I c -> jr_const (hier_of u ++ Hd) mx c (gc c)) ->
+  (forall n f, wf_func I f -> jr_func (hier_of u ++ Hd) mx (Some n) f (gm n f)) ->
+  (forall c, wf_const I c -> jr_const (hier_of u ++ Hd) mx c (gcc c)) ->
+  (forall f, wf_func I f -> jr_func (hier_of u ++ Hd) mx None f (gf f)) ->
+  Forall I (types_of_unit u) -> jr_unit Hd mx u (unit_map gc gm gcc gf u).
+Proof.
+  intros I Hd mx gc gm gcc gf u Hc Hm Hcc Hf W. apply wf_unit_iff in W. destruct W as [W1 [W2 W3]].
+  rewrite Forall_forall in W1, W2, W3. unfold jr_unit; simpl. repeat split.
+  - apply Forall2_map_r. intros; apply Hc; auto.
+  - apply Forall2_map_r. intros cl Hcl. destruct (W2 cl Hcl) as [M C]. rewrite Forall_forall in M, C.
+    unfold jr_class; simpl. repeat split.
+    + apply Forall2_map_r. intros; apply Hm; auto.
+    + apply Forall2_map_r. intros; apply Hcc; auto.
+  - apply Forall2_map_r. intros; apply Hf; auto.
+Qed.
+
+Lemma map_unit4_jr : forall (I : ty -> Prop) Hd mx fp fr fe fc u,
+  (forall t, I t -> jr_ty (hier_of u ++ Hd) mx t (fp t)) -> (forall t, I t -> jr_ty (hier_of u ++ Hd) mx t (fr t)) ->
+  (forall t, I t -> jr_ty (hier_of u ++ Hd) mx t (fe t)) -> (forall t, I t -> jr_ty (hier_of u ++ Hd) mx t (fc t)) ->
+  Forall I (types_of_unit u) -> jr_unit Hd mx u (map_unit4 fp fr fe fc u).
+Proof.
+  intros I Hd mx fp fr fe fc u Hp Hr He Hc W. rewrite map_unit4_eq. apply (unit_map_jr I); try assumption.
+  - intros c Wc. split; [reflexivity | apply Hc; assumption].
+  - intros n f Wf. eapply map_func_jr; [|eassumption]. intros; eapply map_sig3_jr; eassumption.
+  - intros c Wc. split; [reflexivity | apply Hc; assumption].
+  - intros f Wf. eapply map_func_jr; [|eassumption]. intros; eapply map_sig3_jr; eassumption.
+Qed.
+
+(* transitivity *)
+Lemma jr_func_trans : forall H mx cls a b c, jr_func H mx cls a b -> jr_func H mx cls b c -> jr_func H mx cls a c.
+Proof.
+  intros H mx cls a b c [N1 [K1 S1]] [N2 [K2 S2]]. unfold jr_func. repeat split; try congruence.
+  eapply js_trans; eassumption.
+Qed.
+Lemma jr_const_trans : forall H mx a b c, jr_const H mx a b -> jr_const H mx b c -> jr_const H mx a c.
+Proof. intros H mx a b c [N1 W1] [N2 W2]. split; [congruence | eapply jr_trans; eassumption]. Qed.
+Lemma jr_class_trans : forall H mx a b c, jr_class H mx a b -> jr_class H mx b c -> jr_class H mx a c.
+Proof.
+  intros H mx a b c [N1 [B1 [M1 C1]]] [N2 [B2 [M2 C2]]]. unfold jr_class. repeat split; try congruence.
+  - rewrite <- N1 in M2. eapply Forall2_trans; [apply jr_func_trans | eassumption | eassumption].
+  - eapply Forall2_trans; [apply jr_const_trans | eassumption | eassumption].
+Qed.
+Lemma jr_unit_hier : forall Hd mx u u', jr_unit Hd mx u u' -> hier_of u' = hier_of u.
+Proof.
+  intros Hd mx u u' [_ [L _]]. unfold hier_of. induction L; simpl; [reflexivity|].
+  destruct H as [N [B _]]. rewrite IHL, N, B. reflexivity.
+Qed.
+Lemma jr_unit_refl : forall Hd mx u, jr_unit Hd mx u u.
+Proof.
+  intros Hd mx u. unfold jr_unit. repeat split; apply Forall2_refl.
+  - intros c. split; [reflexivity | apply jr_refl].
+  - intros c. unfold jr_class. repeat split; apply Forall2_refl.
+    + intros f. unfold jr_func. repeat split. apply jsigs_refl.
+    + intros k. split; [reflexivity | apply jr_refl].
+  - intros f. unfold jr_func. repeat split. apply jsigs_refl.
+Qed.
+Lemma jr_unit_trans : forall Hd mx a b c, jr_unit Hd mx a b -> jr_unit Hd mx b c -> jr_unit Hd mx a c.
+Proof.
+  intros Hd mx a b c J1 J2. pose proof (jr_unit_hier _ _ _ _ J1) as E.
+  destruct J1 as [C1 [L1 F1]]. destruct J2 as [C2 [L2 F2]]. rewrite E in C2, L2, F2.
+  unfold jr_unit. repeat split.
+  - eapply Forall2_trans; [apply jr_const_trans | eassumption | eassumption].
+  - eapply Forall2_trans; [apply jr_class_trans | eassumption | eassumption].
+  - eapply Forall2_trans; [apply jr_func_trans | eassumption | eassumption].
+Qed.
+
+Lemma resolve_unit_jr : forall Hd mx u, jr_unit Hd mx u (resolve_unit u).
+Proof.
+  intros Hd mx u.
+  assert (W : jr_unit Hd mx u (map_ty_unit resolve u)).
+  { unfold map_ty_unit. apply (map_unit4_jr Itrue); try (intros; apply resolve_jr). apply Itrue_all. }
+  destruct W as [C [L F]]. unfold jr_unit, resolve_unit; simpl. repeat split; try assumption.
+  apply Forall2_map_post; [|exact L].
+  intros x y [N [B [M K]]]. unfold jr_class; simpl. repeat split; try assumption.
+  rewrite map_map. simpl. exact B.
+Qed.
+
+Lemma run_pass_jr : forall k cs o Hd fl p u u',
+  lossless o -> jr_guard_ok fl p = true -> forallb (enabled o) fl = true ->
+  run_pass cs o Hd p u = Some u' ->
+  ranked (hier_of u ++ Hd) -> (needs_wf p = true -> wf_unit k u) ->
+  jr_unit Hd (o_max_union o) u u'.
+Proof.
+  intros k cs o Hd fl p u u' [L1 [L2 L3]] G En E R NW. set (mx := o_max_union o).
+  destruct p; simpl in E; simpl in G; try discriminate; try (inversion E; subst u'; clear E).
+  - rewrite normalize_self_eq. apply (unit_map_jr Itrue); try (intros; split; [reflexivity | apply jr_refl]);
+      [| |apply Itrue_all].
+    + intros n f Wf. apply (map_func_jr _ _ _ Itrue); [|exact Wf]. intros; apply normalize_self_sig_jr.
+    + intros f _. unfold jr_func. repeat split. apply jsigs_refl.
+  - rewrite map_funcs_unit_eq. apply (unit_map_jr Itrue); try (intros; split; [reflexivity | apply jr_refl]);
+      try (intros; apply remove_duplicates_jr). apply Itrue_all.
+  - apply (map_unit4_jr Itrue); try (intros; apply simplify_unions_jr). apply Itrue_all.
+  - rewrite map_funcs_unit_eq. apply (unit_map_jr Itrue); try (intros; split; [reflexivity | apply jr_refl]);
+      try (intros; apply combine_returns_jr). apply Itrue_all.
+  - destruct (forallb (fun t => is_some (cc_top t)) (types_of_unit u)); [|discriminate].
+    inversion E; subst u'; clear E. specialize (NW eq_refl).
+    apply (map_unit4_jr (wf k)); try (intros; apply (combine_containers_jr _ _ k); assumption). assumption.
+  - apply (map_unit4_jr Itrue); try (intros; apply simplify_containers_jr). apply Itrue_all.
+  - specialize (NW eq_refl).
+    apply (map_unit4_jr (wf k)); try (intros; apply (simplify_superclasses_jr _ _ k); assumption). assumption.
+  - pose proof (has_flag_enabled_l o FMaxUnion fl G En) as D. simpl in D. apply negb_true_iff in D.
+    apply Nat.eqb_neq in D.
+    apply (map_unit4_jr Itrue); try (intros; apply collapse_long_unions_jr; assumption). apply Itrue_all.
+  - apply (map_unit4_jr Itrue); try (intros; apply adjust_generic_type_jr); try (intros; apply jr_refl). apply Itrue_all.
+  - pose proof (has_flag_enabled_l o FRemoveMutable fl G En) as D. simpl in D. congruence.
+  - pose proof (has_flag_enabled_l o FRemoveMutable fl G En) as D. simpl in D. congruence.
+  - pose proof (has_flag_enabled_l o FRemoveMutable fl G En) as D. simpl in D. congruence.
+  - apply resolve_unit_jr.
+Qed.
+
+Lemma run_passes_jr : forall k cs o Hd ps wfok u u',
+  lossless o ->
+  pipeline_ok wfok ps = true -> forallb (fun s => jr_guard_ok (fst s) (snd s)) ps = true ->
+  run_passes cs o Hd ps u = Some u' ->
+  ranked (hier_of u ++ Hd) -> (wfok = true -> wf_unit k u) ->
+  jr_unit Hd (o_max_union o) u u'.
+Proof.
+  intros k cs o Hd ps; induction ps as [|[fl p] r IH]; intros wfok u u' L OK G E R W; simpl in E.
+  - inversion E; subst. apply jr_unit_refl.
+  - simpl in OK, G. apply andb_true_iff in OK. destruct OK as [OK OK3]. apply andb_true_iff in OK.
+    destruct OK as [OK1 OK2]. apply andb_true_iff in G. destruct G as [G1 G2].
+    destruct (forallb (enabled o) fl) eqn:En.
+    + destruct (run_pass cs o Hd p u) as [u1|] eqn:E1; [|discriminate].
+      assert (Wn : needs_wf p = true -> wf_unit k u).
+      { intros Nw. apply W. rewrite Nw in OK1. simpl in OK1. exact OK1. }
+      destruct (run_pass_sound k cs o Hd p u u1 E1 R) as [_ [H1 K1]]; [|exact Wn|].
+      * intros ->. simpl in G1. pose proof (has_flag_enabled_l o FRemoveMutable fl G1 En) as D. simpl in D.
+        destruct L as [_ [_ L3]]. congruence.
+      * eapply jr_unit_trans; [eapply run_pass_jr; eassumption|].
+        apply (IH (wfok && keeps_wf p) u1 u'); try assumption.
+        -- rewrite H1; assumption.
+        -- intros Ew. apply andb_true_iff in Ew. destruct Ew as [Ew Ek]. apply K1; auto.
+    + apply (IH (wfok && keeps_wf p) u u'); try assumption.
+      intros Ew. apply andb_true_iff in Ew. apply W. tauto.
+Qed.
+
+Lemma jr_passes_ok : jr_pipeline_ok passes = true.
+Proof. vm_compute. reflexivity. Qed.
+
+Lemma lossless_changes_only_lemma : forall k o Hd u u',
+  lossless o -> ranked (hier_of u ++ Hd) -> wf_unit k u ->
+  opt o Hd u = Some u' -> jr_unit Hd (o_max_union o) u u'.
+Proof.
+  intros k o Hd u u' L R W E. pose proof jr_passes_ok as OK. unfold jr_pipeline_ok in OK.
+  apply andb_true_iff in OK. destruct OK as [OK1 OK2].
+  eapply (run_passes_jr k sc_collapse_single o Hd passes true); try eassumption. auto.
+Qed.
+
+Lemma lossless_changes_only_ty_lemma : forall H k o t t',
+  o_lossy o = false -> wf k t -> opt_ty o t = Some t' -> jr_ty H (o_max_union o) t t'.
+Proof.
+  intros H k o t t' L. unfold opt_ty.
+  assert (G : forallb (fun s => jr_guard_ok (fst s) (snd s)) passes = true).
+  { pose proof jr_passes_ok as OK. unfold jr_pipeline_ok in OK. apply andb_true_iff in OK. tauto. }
+  revert G. generalize passes. intros ps; revert t.
+  induction ps as [|[fl p] r IH]; intros t G W E; simpl in E.
+  - inversion E; subst. apply jr_refl.
+  - simpl in G. apply andb_true_iff in G. destruct G as [G1 G2].
+    destruct (forallb (enabled o) fl) eqn:En; [|apply IH; assumption].
+    destruct (run_pass_ty o p t) as [t1|] eqn:E1; [|discriminate].
+    destruct (run_pass_ty_sound H k o p t t1 W E1) as [_ W1].
+    eapply jr_trans; [|apply IH; eassumption].
+    clear IH E. destruct p; simpl in E1; try discriminate; try (inversion E1; subst t1; apply jr_refl).
+    + inversion E1; subst. apply simplify_unions_jr.
+    + unfold cc_top in E1. eapply cc_jr; eassumption.
+    + inversion E1; subst. apply simplify_containers_jr.
+    + inversion E1; subst. apply collapse_long_unions_jr.
+      simpl in G1. pose proof (has_flag_enabled_l o FMaxUnion fl G1 En) as D. simpl in D.
+      apply negb_true_iff in D. apply Nat.eqb_neq in D. exact D.
+Qed.
+
+(* ---------------------------------------------------------------- the relation never narrows, at every level *)
+Lemma Forall2_imp : forall {A B} (R R' : A -> B -> Prop) l l',
+  (forall x y, R x y -> R' x y) -> Forall2 R l l' -> Forall2 R' l l'.
+Proof. intros A B R R' l l' Hi F. induction F; constructor; auto. Qed.
+
+Lemma jr_param_wider : forall H mx cls p p', jr_param H mx cls p p' -> param_wider H p p'.
+Proof.
+  induction 1.
+  - eapply param_wider_trans; eassumption.
+  - unfold param_wider; simpl. repeat split; [eapply jr_widens_lemma; eassumption|].
+    destruct m, m'; simpl in *; try contradiction; [eapply jr_widens_lemma; eassumption | reflexivity].
+  - unfold param_wider; simpl. repeat split; intros v A; apply admits_union; eexists; split; try exact A; simpl; auto.
+  - unfold param_wider; simpl. repeat split.
+    + intros v A. destruct t; try assumption.
+      * apply admits_gen in A. simpl. tauto.
+      * apply admits_tup in A. destruct A as [items [-> [S _]]]. exact S.
+      * apply admits_call in A. destruct A as [a [r [-> [S _]]]]. exact S.
+    + destruct m; [apply wider_refl | reflexivity].
+Qed.
+
+Lemma jr_sig_wider : forall H mx cls s s', jr_sig H mx cls s s' -> sig_wider H s s'.
+Proof.
+  intros H mx cls s s' [P [S [SS [R _]]]]. unfold sig_wider. repeat split.
+  - eapply Forall2_imp; [|exact P]. intros; eapply jr_param_wider; eassumption.
+  - destruct (s_star s), (s_star s'); simpl in *; try contradiction; try exact Logic.I. eapply jr_param_wider; eassumption.
+  - destruct (s_starstar s), (s_starstar s'); simpl in *; try contradiction; try exact Logic.I. eapply jr_param_wider; eassumption.
+  - eapply jr_widens_lemma; eassumption.
+Qed.
+
+Lemma jr_sigs_cover : forall H mx cls l l', jr_sigs H mx cls l l' ->
+  forall q, In q l -> exists q', In q' l' /\ sig_wider H q q'.
+Proof.
+  induction 1; intros q Hs.
+  - destruct (IHjr_sigs1 q Hs) as [s1 [H1 W1]]. destruct (IHjr_sigs2 s1 H1) as [s2 [H2 W2]].
+    exists s2. split; [assumption | eapply sig_wider_trans; eassumption].
+  - clear - H0 Hs. induction H0; [contradiction|]. destruct Hs as [<-|Hs].
+    + exists y. split; [left; reflexivity | eapply jr_sig_wider; eassumption].
+    + destruct (IHForall2 Hs) as [s' [Hs' W]]. exists s'. split; [right; assumption | assumption].
+  - exists q. split; [|apply sig_wider_refl].
+    rewrite !in_app_iff in *. simpl in *. rewrite !in_app_iff in *. simpl in *. tauto.
+  - rewrite in_app_iff in Hs. simpl in Hs. rewrite in_app_iff in Hs. simpl in Hs.
+    destruct H0 as [E1 [E2 E3]].
+    assert (M1 : sig_wider H s1 (mkSig (s_params s1) (s_star s1) (s_starstar s1) (TUnion [s_ret s1; s_ret s2]) (s_exc s1 ++ s_exc s2))).
+    { unfold sig_wider; simpl. repeat split; try apply oparam_wider_refl.
+      - apply Forall2_refl; apply param_wider_refl.
+      - intros v A. apply admits_union. exists (s_ret s1). simpl; auto. }
+    assert (M2 : sig_wider H s2 (mkSig (s_params s1) (s_star s1) (s_starstar s1) (TUnion [s_ret s1; s_ret s2]) (s_exc s1 ++ s_exc s2))).
+    { unfold sig_wider; simpl. rewrite E1, E2, E3. repeat split; try apply oparam_wider_refl.
+      - apply Forall2_refl; apply param_wider_refl.
+      - intros v A. apply admits_union. exists (s_ret s2). simpl; auto. }
+    destruct Hs as [Hs|[<-|[Hs|[<-|Hs]]]].
+    + exists q. split; [apply in_or_app; auto | apply sig_wider_refl].
+    + eexists. split; [apply in_or_app; right; left; reflexivity | exact M1].
+    + exists q. split; [apply in_or_app; right; right; apply in_or_app; auto | apply sig_wider_refl].
+    + eexists. split; [apply in_or_app; right; left; reflexivity | exact M2].
+    + exists q. split; [apply in_or_app; right; right; apply in_or_app; auto | apply sig_wider_refl].
+Qed.
+
+Lemma jr_unit_widens_lemma : forall Hd mx u u', jr_unit Hd mx u u' -> unit_wider (hier_of u ++ Hd) u u'.
+Proof.
+  intros Hd mx u u' [C [L F]]. set (H := hier_of u ++ Hd) in *.
+  assert (Fn : forall cls f f', jr_func H mx cls f f' -> func_wider H f f').
+  { intros cls f f' [N [K S]]. unfold func_wider. repeat split; try assumption. eapply jr_sigs_cover; eassumption. }
+  assert (Cn : forall c c', jr_const H mx c c' -> const_wider H c c').
+  { intros c c' [N J]. split; [assumption | eapply jr_widens_lemma; eassumption]. }
+  unfold unit_wider. repeat split.
+  - eapply Forall2_imp; [|exact C]. exact Cn.
+  - eapply Forall2_imp; [|exact L]. intros c c' [N [B [M K]]]. unfold class_wider. repeat split; try assumption.
+    + eapply Forall2_imp; [|exact M]. intros; eapply Fn; eassumption.
+    + eapply Forall2_imp; [|exact K]. exact Cn.
+  - eapply Forall2_imp; [|exact F]. intros; eapply Fn; eassumption.
+Qed.
+
+(* optimize_widens (lossless settings) as a corollary of lossless_changes_only *)
+Lemma optimize_widens_from_rewrites : forall k o Hd u u',
+  lossless o -> ranked (hier_of u ++ Hd) -> wf_unit k u ->
+  opt o Hd u = Some u' -> unit_wider (hier_of u ++ Hd) u u'.
+Proof.
+  intros k o Hd u u' L R W E. eapply jr_unit_widens_lemma. eapply lossless_changes_only_lemma; eassumption.
+Qed.
